@@ -25,7 +25,7 @@ claimed["C13"] = dict(
    text="Static io-discipline analysis over the whole (de)serialization closure decides, for every reader chunking, truncation point and writer failure "
         "offset at once, that no stream is consumed with a short-read-unsafe Read, that every I/O or nested error leaves the function as a non-nil error "
         "(callbacks included; only io.EOF at a record boundary may become success), that every operation's byte count reaches the returned total, that no fallible call is deferred (its error could never reach the caller), that "
-        "each restore function succeeds only behind a post-read consistency test, that the restored object carries the constructor's configuration, that a record buffer reused across records has every byte it assigns assigned on every path to the write, that the caller's reader is never handed to a wrapper that may read ahead of the reported count, that the end of the stream is never turned into success (the formats announce their record counts), that failing returns report the running byte total, and that each operation's count is added to that total before the error test that follows it (so the bytes a failing operation did transfer are reported), that the restore loops of the map forest store every record they read and take over the header fields of the stream on every path, and that a memoized size would be reset by every method that changes the forest. Round-trip equality of the restored forest is not decided.",
+        "each restore function succeeds only behind a post-read consistency test, that the restored object carries the constructor's configuration, that a record buffer reused across records has every byte it assigns assigned on every path to the write, that the caller's reader is never handed to a wrapper that may read ahead of the reported count, that the end of the stream is never turned into success (the formats announce their record counts), that failing returns report the running byte total, and that each operation's count is added to that total before the error test that follows it (so the bytes a failing operation did transfer are reported), that the restore loops of the map forest store every record they read and take over the header fields of the stream on every path, that a memoized size would be reset by every method that changes the forest, and that every store of the receiver the map forest's restore refills is emptied first (the stream describes the whole forest; found D25). Round-trip equality of the restored forest is not decided.",
    ref="DESIGN.md 5/C13, engines E6+E2",
    technique="static error-propagation (dominance/region analysis on go/ssa), who-may-call rule for raw Read, typed-AST count accumulation, must-pass-through gate (custom analyzer)")
 
@@ -36,7 +36,7 @@ claimed["C03"] = dict(
         "would move up unhashed); a failing return of the core is guarded by a comparison of the claimed position with a bound computed from the leaf count; siblinghood is never "
         "concluded from rightSib(a)==b alone; the verifiers use the positions the candidates were computed at; and on every verification path positions are used in the coordinate "
         "system (tree layout vs the map forest's TotalRows layout) the accompanying height denotes; neither input of the core's parent-hash step can be the default value of its variable, and a cursor over claimed hashes advances only past an entry that was read. These are necessary conditions of soundness, decided for all inputs (five of "
-        "them fired on the pinned tree and were repaired); the work loop of the core ends towards success only on a test that looks at the work list; that the core recomputes the right candidates (arithmetic, hashing) is not decided.",
+        "them fired on the pinned tree and were repaired); the work loop of the core ends towards success only on a test that looks at the work list; the zero-hash refusal reads each list under a loop over that same list (a single pass bounded by the other list leaves a tail unchecked); that the core recomputes the right candidates (arithmetic, hashing) is not decided.",
    ref="DESIGN.md 5/C03, engine E2",
    technique="static error-propagation and guard (dominating branch edge) analysis on go/ssa, anchors resolved by role; coordinate-layout abstract interpretation of the verification paths (custom analyzer)")
 
@@ -94,7 +94,7 @@ claimed["C15"] = dict(
    text="Static guard and dataflow rules on the schedule generator decide, for all histories and limits, the memory bound clause: the working cache grows only "
         "under a strict len(cache) < maxMemory test on the value appended to or right after a one-element removal, and every scheduled position is read from that "
         "cache; the ordering clause: each row is sorted after its last append; and three conditions of completeness: recorded deletions are sorted ascending before de-twinning, "
-        "every recorded root state has the block's deletions applied, the TTL table is recomputed before it is read, tree/branch detection with a discarded error is applied to a tracked position only behind an exact existence test, generating a schedule never writes through a recorded list or an alias of it, no allocation is sized by the memory limit, a list a helper returns resized is taken from its result, and the tracker's simulation of the empty roots that additions write over agrees in control structure with the verifier's clone of it, and every root a block empties is marked (no early exit from the outer marking loop). That positions are the right insertion slots and uniqueness are not decided.",
+        "every recorded root state has the block's deletions applied, the TTL table is recomputed before it is read, tree/branch detection with a discarded error is applied to a tracked position only behind an exact existence test, generating a schedule never writes through a recorded list or an alias of it, no allocation is sized by the memory limit, a list a helper returns resized is taken from its result, and the tracker's simulation of the empty roots that additions write over agrees in control structure with the verifier's clone of it, every root a block empties is marked (no early exit from the outer marking loop), and the TTL table the generator rebuilds is allocated on every path that fills it. That positions are the right insertion slots and uniqueness are not decided.",
    ref="DESIGN.md 5/C15, engine E2",
    technique="static guard analysis on SSA values, value-web dataflow, must-pass-through rules and order-class dataflow (taint to requires-sorted sinks) on go/ssa (custom analyzer)")
 claimed["C01"] = dict(
@@ -110,7 +110,7 @@ claimed["C14"] = dict(
         "hashes given in any parallel order': at every site that combines positions with hashes index by index both operands are in the same order class (caller order, "
         "sorted copy, canonical proof order of the same group); no slice still in a caller-chosen order reaches a function that requires sorted input; proof restriction "
         "succeeds only behind the coverage test and returns hashes and targets in request order; positions are used (and returned) in the coordinate system the accompanying "
-        "forest height denotes; computing missing positions never reorders the targets of the proof the caller holds, decides what is missing by look-ups of the node store on every non-empty request, the hashes supplied for the missing positions are read through their own cursor, the single-target proof-position helper is never accumulated over a loop of targets, and the stand-alone missing-positions function takes the held set from the sorted copy of the caller's proof targets element for element. Canonicity/exactness of the combined or restricted proof and of the "
+        "forest height denotes; computing missing positions never reorders the targets of the proof the caller holds, decides what is missing by look-ups of the node store on every non-empty request, the hashes supplied for the missing positions are read through their own cursor, the single-target proof-position helper is never accumulated over a loop of targets, and the stand-alone missing-positions function takes the held set from the sorted copy of the caller's proof targets element for element; no list the combination returns is a concatenation of one proof's list behind the other's; the restriction runs the hashing core on every path to a success return. Canonicity/exactness of the combined or restricted proof and of the "
         "missing positions (position arithmetic) are not decided.",
    ref="DESIGN.md 5/C14, engine E7",
    technique="static order-class dataflow: flow- and context-sensitive abstract interpretation over go/ssa with in-place-sort tracking; pairing, taint-to-sink and output-contract rules (custom analyzer)")
@@ -134,7 +134,7 @@ claimed["C16"] = dict(
         "call closure of the exported position functions computes with integers only (no floating-point value, no call into package math other than math/bits - float64 "
         "cannot represent every position or leaf count at heights near 63), and in ProofPositions every step that replaces a working target by its parent also appends "
         "to the list of computable positions on every path to the next iteration; every left shift by a variable amount in that closure is computed in a 64-bit type (forests have up to 63 rows); "
-        "a leaf count converted to a signed integer is only compared, never an operand of arithmetic; and a row is compared with a forest height only inclusively (the top row is a row).",
+        "a leaf count converted to a signed integer is only compared, never an operand of arithmetic; a row is compared with a forest height only inclusively (the top row is a row); a value is compared with the biggest position of a row (maxPositionAtRow, maxPossiblePosAtRow) only inclusively, and a position with 1<<rows only strictly.",
    ref="DESIGN.md 5/C16",
    technique="static type/effect lint over the call closure (no float values, no math calls) and a must-pass-through rule on go/ssa (custom analyzer)")
 
